@@ -153,6 +153,11 @@ class Mir:
             if s:
                 cur.blocks[block].append(s)
 
+    def crate_modules(self):
+        if not hasattr(self, "_mods"):
+            self._mods = {f[:-3] for f in os.listdir(os.path.join(REPO, "src")) if f.endswith(".rs")}
+        return self._mods
+
     def find(self, suffix):
         """Item whose name equals `suffix` or ends with `::suffix` (must be unique)."""
         if suffix in self.items:
@@ -160,8 +165,8 @@ class Mir:
         c = [n for n in self.items if n.endswith("::" + suffix) or n.endswith(">" + suffix)]
         if len(c) == 1:
             return self.items[c[0]]
-        if len(c) == 0 and "::" in suffix and not suffix.startswith("<"):
-            # the dump prints free items without their module path: retry with the path stripped
+        if len(c) == 0 and "::" in suffix and suffix.split("::", 1)[0] in self.crate_modules():
+            # the dump prints free items without their module path: retry with the crate module stripped
             return self.find(suffix.split("::", 1)[1])
         raise KeyError("item %r: %d candidates %s" % (suffix, len(c), c[:5]))
 
@@ -815,9 +820,9 @@ class Exec:
                 return None
             return [(m.group(4), frame, npc)]
         # calls
-        m = re.match(r"^(.+?) = (.+?)\((.*)\) -> (.*);$", ln)
+        m = _split_call(ln)
         if m:
-            dest, fn, argstr, targets = m.groups()
+            dest, fn, argstr, targets = m
             args = [self._operand(item, frame, a) for a in split_top(argstr)]
             tm = re.search(r"return: (bb\d+)", targets)
             ret_bb = tm.group(1) if tm else None
@@ -930,6 +935,29 @@ class Exec:
         raise Unsupported("ite of %r" % (a,))
 
 
+def _split_call(ln):
+    """`dest = FN(ARGS) -> TARGETS;` -> (dest, FN, ARGS, TARGETS); FN may itself contain parentheses."""
+    if " = " not in ln or ") -> " not in ln or not ln.endswith(";"):
+        return None
+    dest, _, rest = ln.partition(" = ")
+    head, _, targets = rest.rpartition(") -> ")
+    # head = FN(ARGS  : find the '(' matching the final ')'
+    depth, i, instr = 0, len(head) - 1, False
+    while i >= 0:
+        c = head[i]
+        if c == '"' and (i == 0 or head[i - 1] != "\\"):
+            instr = not instr
+        elif not instr:
+            if c == ")":
+                depth += 1
+            elif c == "(":
+                if depth == 0:
+                    return dest, head[:i], head[i + 1:], targets[:-1]
+                depth -= 1
+        i -= 1
+    return None
+
+
 CMPS = {"Eq": sx.eq, "Ne": sx.ne, "Lt": sx.lt, "Le": sx.le, "Gt": sx.gt, "Ge": sx.ge}
 BINOPS = {"Add", "Sub", "Mul", "Div", "Rem", "BitXor", "BitAnd", "BitOr", "Shl", "Shr", "ShlUnchecked",
           "ShrUnchecked", "AddWithOverflow", "SubWithOverflow", "MulWithOverflow",
@@ -977,6 +1005,18 @@ def model_from_widen(ex, args, fn):
         ty = m.group(1) if "From" in fn else m.group(2)
         if INT_TYPES[ty] >= INT_TYPES[a.ty]:
             return [(sx.TRUE, "ret", Int(a.t, ty), "")]
+    raise Unsupported(fn)
+
+
+def model_wrapping(ex, args, fn):
+    a, b = args
+    bits = INT_TYPES[a.ty]
+    if fn.endswith("wrapping_add"):
+        return [(sx.TRUE, "ret", Int(sx.mod2(sx.add(a.t, b.t), bits), a.ty), "")]
+    if fn.endswith("wrapping_mul"):
+        return [(sx.TRUE, "ret", Int(sx.mod2(sx.mul(a.t, b.t), bits), a.ty), "")]
+    if fn.endswith("wrapping_sub"):
+        return [(sx.TRUE, "ret", Int(sx.ite(sx.ge(a.t, b.t), sx.sub(a.t, b.t), sx.sub(sx.add(a.t, sx.const(1 << bits)), b.t)), a.ty), "")]
     raise Unsupported(fn)
 
 
@@ -1061,6 +1101,7 @@ def model_slice_iter_next(ex, args, fn):
 MODELS = {
     r"core::num::<impl u\d+>::is_multiple_of$": model_is_multiple_of,
     r"core::num::<impl u\d+>::div_ceil$": model_div_ceil,
+    r"core::num::<impl u\d+>::wrapping_(add|sub|mul)$": model_wrapping,
     r"^<T[IJ] as Into<u32>>::into$": model_into_u32,
     r"^<u\d+ as (From|Into)<u\d+>>::(from|into)$": model_from_widen,
     r"^(std|core)::cmp::min::<u\d+>$": model_min,
@@ -1071,6 +1112,7 @@ MODELS = {
     r"^core::slice::<impl \[.*\]>::iter$": model_slice_iter,
     r"^<std::slice::Iter<.*> as Iterator>::rev$": model_rev,
     r"^<Rev<std::slice::Iter<.*>> as IntoIterator>::into_iter$": model_into_iter,
+    r"^<std::slice::Iter<.*> as IntoIterator>::into_iter$": model_into_iter,
     r"^<Rev<std::slice::Iter<.*>> as Iterator>::next$": model_slice_iter_next,
     r"^<std::slice::Iter<.*> as Iterator>::next$": model_slice_iter_next,
 }
